@@ -74,6 +74,11 @@ func main() {
 		out := fs.String("out", "Consts.lean", "output file")
 		fs.Parse(os.Args[2:])
 		genConsts(*repo, *out)
+	case "transcov":
+		fs := flag.NewFlagSet("transcov", flag.ExitOnError)
+		repo := fs.String("repo", "/repo", "repository root")
+		fs.Parse(os.Args[2:])
+		transCoverage(*repo)
 	case "trans":
 		fs := flag.NewFlagSet("trans", flag.ExitOnError)
 		repo := fs.String("repo", "/repo", "repository root")
